@@ -4,9 +4,12 @@ package main
 // line protocol, diffs, and evaluates the property predicates directly on the implementation.
 
 import (
+	"io"
+
 	"encoding/json"
 	"flag"
 	"fmt"
+	smslogger "github.com/hujm2023/go-sms-protocol/logger"
 	"os"
 	"sort"
 	"strings"
@@ -28,6 +31,7 @@ func init() {
 }
 
 func main() {
+	smslogger.SetOutput(io.Discard) // the library logs fallbacks to stderr
 	prop := flag.String("prop", "", "property id")
 	tier := flag.String("tier", "quick", "quick|thorough")
 	seed := flag.Uint64("seed", 1, "PRNG seed")
